@@ -254,6 +254,18 @@ def gen_case(ch):
         base, kind = _signal(ch, rng, n, 1)
         base = base[:, 0] + 0.05 * rng.standard_normal(n)
         lf = 80 + ch.draw(120, "LF_deep")
+    elif ch.flip(1, 6, "fde_replica_record"):
+        # an event followed, after a quiet gap, by an exact 1/2 or 1/4 scale replica of itself, no
+        # noise: cycle amplitudes that are EXACT fractions of the largest one (they fall on bin
+        # edges: the tie-breaking of any binning scheme becomes visible)
+        L = 40 + ch.draw(200, "burst_len")
+        gap = 200 + ch.draw(600, "gap_len")
+        t_ = np.arange(L)
+        burst = np.sin(2 * np.pi * t_ / (6 + ch.draw(20, "burst_period"))) * np.hanning(L) * (1 + ch.draw(4, "burst_amp"))
+        fac = [0.5, 0.25, 1.0][ch.draw(3, "replica_scale")]
+        base = np.concatenate((burst, np.zeros(gap), fac * burst, np.zeros(gap)))
+        n = base.size
+        kind = "burst_plus_scaled_replica"
     elif ch.flip(1, 40, "fde_long_signal"):
         # a long record with few frequencies (anything that switches on above a size threshold)
         n = 50001 + ch.draw(15000, "n_long")
